@@ -529,8 +529,9 @@ func (runInfo *runInfoStruct) invokeItemExpr(expr *ast.ItemExpr) {
 		if item.Kind() != reflect.String {
 			runInfo.rv = item.Index(index)
 		} else {
-			// String
-			runInfo.rv = item.Index(index).Convert(stringType)
+			// String: the one-byte string at index, the same s[index:index+1] yields
+			// (converting the byte through a rune would spell a byte >= 0x80 as two bytes)
+			runInfo.rv = reflect.ValueOf(item.String()[index : index+1])
 		}
 	case reflect.Map:
 		runInfo.rv = getMapIndex(runInfo.rv, item)
